@@ -420,6 +420,32 @@ type RouteScript struct {
 	Repo   string `json:"repo"`
 	Ref    string `json:"ref"`  // tag or digest (no '/')
 	From   string `json:"from"` // mount only
+	Enc    []int  `json:"enc,omitempty"` // positions of path bytes sent percent-encoded although they need not be
+}
+
+// encodePath sets u.RawPath to an equivalent spelling of u.Path in which the bytes at the given
+// positions (other than '/') are percent-encoded, as a client is free to send them; net/http hands a
+// handler exactly this pair (decoded Path, RawPath as received).
+func encodePath(u *url.URL, enc []int) {
+	if len(enc) == 0 || len(u.Path) == 0 {
+		return
+	}
+	at := map[int]bool{}
+	for _, i := range enc {
+		at[((i%len(u.Path))+len(u.Path))%len(u.Path)] = true
+	}
+	var b strings.Builder
+	for i := 0; i < len(u.Path); i++ {
+		c := u.Path[i]
+		if at[i] && c != '/' {
+			fmt.Fprintf(&b, "%%%02X", c)
+		} else {
+			b.WriteString((&url.URL{Path: string(c)}).EscapedPath())
+		}
+	}
+	if dec, err := url.PathUnescape(b.String()); err == nil && dec == u.Path {
+		u.RawPath = b.String()
+	}
 }
 
 var (
@@ -480,6 +506,7 @@ func runRoute(sc RouteScript, v *vt.V) {
 		v.Failf("harness", "ref with slash is outside the domain")
 		return
 	}
+	encodePath(u, sc.Enc)
 	req := &http.Request{Method: sc.Method, URL: u, Header: http.Header{}, Body: http.NoBody, Host: "x", Proto: "HTTP/1.1", ProtoMajor: 1, ProtoMinor: 1}
 	w := httptest.NewRecorder()
 	handler.ServeHTTP(w, req) // a panic is caught by vt
@@ -567,13 +594,16 @@ func genRoute(t *rapid.T) RouteScript {
 		}
 		sc.From = repo("from")
 	}
+	if rapid.IntRange(0, 2).Draw(t, "encoded") == 0 {
+		sc.Enc = rapid.SliceOfN(rapid.IntRange(0, 400), 1, 4).Draw(t, "enc")
+	}
 	return sc
 }
 
 var propRoute = &vt.Prop[RouteScript]{
 	ID:   "C17",
 	Name: "RouterAgreesWithPredicates",
-	Rule: "requests GET/HEAD/DELETE /v2/<r>/manifests/<ref>, /blobs/<ref>, GET /tags/list, /referrers/<ref>, POST /blobs/uploads/ (plain and mount form) with r, from drawn from valid (routing words, lengths 254-257) and hostile repository generators (empty, dot segments, slashes, upper case, NUL, UTF-8) and ref from valid/hostile tags and digests incl. the empty string, driven through ociserver.ServeHTTP with hand-built URLs; oracle = backend (recorder) reached iff IsValidRepository(r) and IsValidTag/IsValidDigest(ref), and then with exactly (r, ref); non-trivial = repository valid or request reached the backend; distinct = request",
+	Rule: "requests GET/HEAD/DELETE /v2/<r>/manifests/<ref>, /blobs/<ref>, GET /tags/list, /referrers/<ref>, POST /blobs/uploads/ (plain and mount form) with r, from drawn from valid (routing words, lengths 254-257) and hostile repository generators (empty, dot segments, slashes, upper case, NUL, UTF-8) and ref from valid/hostile tags and digests incl. the empty string, driven through ociserver.ServeHTTP with hand-built URLs, a third of them with 1-4 path bytes percent-encoded although they need not be (the decoded path is what names the repository); oracle = backend (recorder) reached iff IsValidRepository(r) and IsValidTag/IsValidDigest(ref), and then with exactly (r, ref); non-trivial = repository valid or request reached the backend; distinct = request",
 	Gen:  genRoute,
 	Run:  runRoute,
 }
